@@ -556,7 +556,8 @@ def gen_histories(ck, objects, version):
         hs.append(("exhaustive-shared", list(pre) + list(seq)))
     if thorough:
         core = [a for a in alpha if a[0] not in ("open", "foreign", "clear")
-                and not (a[0] == "put" and a[1] is None and a[4] == 1)]
+                and not (a[0] == "put" and a[1] is None and a[4] == 1)
+                and not (a[0] in ("purge",) and a[1] == 1) and not (a[0] == "put" and a[1] and a[2] == 0)]
         for seq in itertools.product(core, repeat=5):
             hs.append(("exhaustive-5", list(pre) + list(seq)))
     pre, alpha = alphabet_mixed()
@@ -571,7 +572,7 @@ def gen_histories(ck, objects, version):
                                                ("open", 0, kind, 0), ("get", None, 0, "a"),
                                                ("put", None, 0, "a", 0), ("get", None, 0, "a"),
                                                ("open", 1, kind, 5), ("get", None, 1, "a")]))
-    for _ in range(8000 if thorough else 1200):
+    for _ in range(5000 if thorough else 1200):
         hs.append(("random", random_history(rng, objects, 12, version)))
     return hs
 
@@ -1213,18 +1214,23 @@ def flipped_ref(member, optname, refs):
     return refs[key]
 
 
-def bad_observations(member, imps, sc, observed, refs):
+def bad_observations(member, imps, opened_urls, sc, observed, refs):
     """Replicates the specification (Reader.v cobs_ok / cspec_run) to name the reason, and
     explains reasons by the two known defect classes where they are the cause."""
-    warm = set()
+    warm = []           # (class, policy, time everything was stored)
+    now = 0
     bad = []
     for idx, (op, (obs, _)) in enumerate(zip(sc, observed)):
-        if op[0] != "client":
-            warm = set()
+        if op[0] == "advance":
+            now += op[1]
             continue
-        kind, pol, optname = op[1], op[3], op[4]
+        if op[0] != "client":
+            warm = []
+            continue
+        kind, dur, pol, optname = op[1], op[2], op[3], op[4]
         if kind == "default":
             kind = "KPx"
+        is_warm = any(k == kind and p == pol and (dur == 0 or now <= t0 + dur) for k, p, t0 in warm)
         reasons = []
         if obs["exc"] is not None:
             reasons.append("raise")
@@ -1239,7 +1245,7 @@ def bad_observations(member, imps, sc, observed, refs):
                 reasons.append("reply-cached")
         if obs["transport"]:
             reasons.append("transport")
-        if (kind, pol) in warm and obs["fetched"]:
+        if is_warm and obs["fetched"]:
             reasons.append("fetch")
         if reasons:
             klass = None
@@ -1252,8 +1258,8 @@ def bad_observations(member, imps, sc, observed, refs):
                   and obs["fp"] == flipped_ref(member, optname, refs)["fp"]):
                 klass = KEY_STALE
             bad.append((idx, reasons, klass))
-        if warms(kind, pol):
-            warm.add((kind, pol))
+        if warms(kind, pol) and obs["fetched"] == opened_urls:
+            warm.append((kind, pol, now))
     return bad
 
 
@@ -1350,7 +1356,7 @@ def check_clients(ck, version):
                 observed = run_scenario(member, sc, loc, refs)
             shutil.rmtree(os.path.dirname(loc), ignore_errors=True)
             terms.append(c_ccase(version, info, quirks, sc, observed))
-            bad = bad_observations(member, imps, sc, observed, refs)
+            bad = bad_observations(member, imps, [urls[i - 1] for i in opened], sc, observed, refs)
             keep.append(((shape, nops, style), sc, observed, bad))
             nclients = [o for o in sc if o[0] == "client"]
             warmhit = any(obs is not None and obs["exc"] is None and not obs["fetched"] for obs, _ in observed)
